@@ -274,7 +274,7 @@ macro_rules! with_config {
 fn op_operands_mut(op: &mut Op) -> Vec<&mut usize> {
     use Op::*;
     match op {
-        Const(_) => vec![],
+        Const(_) | ConstNC(_) => vec![],
         Add(a, b) | Sub(a, b) | Mul(a, b) | Div(a, b) | ExtNew(a, b) | AddE(a, b) | SubE(a, b) | MulE(a, b) | ScalarMulE(a, b)
         | DivE(a, b) | And(a, b) | Or(a, b) | IsEqual(a, b) | Connect(a, b) => vec![a, b],
         MulAdd(a, b, c) | MulSub(a, b, c) | MulAddE(a, b, c) | Select(a, b, c) | SelectE(a, b, c) | CondAssertEq(a, b, c) => vec![a, b, c],
